@@ -318,8 +318,8 @@ def rawOkV : FieldDecl → PyVal → Bool
   | .enumLit _, _ => true
   | .noneF, _ => true
   | .seqAny _ _, _ => true
-  | .oneOf fs, v => rawOkAll fs v      -- OneOf / AllOf store what their matched / first option builds
-  | .allOf fs, v => rawOkAll fs v
+  | .oneOf _, _ => true
+  | .allOf _, _ => true
   | .notF _, _ => true
   | .anything, _ => true
   | .seqPos _ _ _ _, _ => false
@@ -368,8 +368,8 @@ def rawIssuesV : FieldDecl → PyVal → List String
   | .enumLit _, _ => []
   | .noneF, _ => []
   | .seqAny _ _, _ => []
-  | .oneOf fs, v => rawIssuesAll fs v
-  | .allOf fs, v => rawIssuesAll fs v
+  | .oneOf _, _ => []
+  | .allOf _, _ => []
   | .notF _, _ => []
   | .anything, _ => []
   | .seqPos _ items _ _, v =>
